@@ -56,7 +56,31 @@ pub fn render_pair(case: &Case, t: &mut Tape) -> (String, String) {
 
 use crate::runner::{Report, Tier};
 
+/// Run a check; afterwards replay the committed input of every recorded finding of the
+/// property in strict mode and note whether it still reproduces (a finding that no longer
+/// reproduces is reported on its KNOWN-FINDING line, it is not a violation).
 pub fn run(id: &str, tier: Tier, seed: u64) -> Option<Report> {
+    let mut report = run_inner(id, tier, seed)?;
+    let known: Vec<crate::runner::Finding> = report.kf.known_for(id).into_iter().cloned().collect();
+    let mut notes = serde_json::Map::new();
+    for f in known {
+        let Some(path) = f.replay.as_ref().filter(|p| p.ends_with(".json")) else { continue };
+        let full = format!("{}/{}", crate::runner::VERIF_DIR, path);
+        let Ok(text) = std::fs::read_to_string(&full) else { continue };
+        let Ok(doc) = serde_json::from_str::<serde_json::Value>(&text) else { continue };
+        let Ok(tape) = serde_json::from_value::<Vec<u16>>(doc["tape"].clone()) else { continue };
+        let phase = doc["phase"].as_str().unwrap_or("");
+        let seed0 = doc["seed"].as_u64().unwrap_or(seed);
+        let still = replay(id, phase, &tape, seed0).map(|r| r.failed()).unwrap_or(false);
+        notes.insert(f.signature.clone(), serde_json::json!(if still { "replay input still fails" } else { "replay input no longer fails" }));
+    }
+    if !notes.is_empty() {
+        report.extra.insert("known_findings_replayed".into(), serde_json::Value::Object(notes));
+    }
+    Some(report)
+}
+
+fn run_inner(id: &str, tier: Tier, seed: u64) -> Option<Report> {
     Some(match id {
         "C01" => c01::run(tier, seed),
         "C02" => c02::run(tier, seed),
